@@ -486,6 +486,8 @@ def check_updates_reach(ctx, rep):
         if site or derived:
             n += 1
             c11.check_handlers(ctx, RuleProxy(rep, 'C05.H', 'handlers::'), kinds, cls)
+        if cls.module.name == 'torchtree.core.parameter' and cls.has_base(PARAM_BASE):
+            c11.check_setters(ctx, RuleProxy(rep, 'C05.H', 'setters::'), cls)       # an assignment to shape / invariant / mu always tells the listeners
     if n < 6:
         rep.incomplete('C05.H', '*', '', f"only {n} site model / derived parameter classes found")
 
